@@ -1330,6 +1330,10 @@ def quit_cases(seed, n):
         # controls sent from INSIDE the quitting action, just before the quit (`!`): the job is still on its way out when the worker's quit reaches it
         "i_del g:15:500 100 I~n:start;y!n:delete", "i_del_abort abort 100 I~n:start;y!n:delete;n:start", "i_delnow g:15:300 20 I~n:start;y!n:deletenow/I~n:start",
         "i_gstop g:15:100 10 I~n:start;y!n:gstop:2:300;n:delete", "i_restart g:15:50 0 S30,I~n:start;y!n:restart",
+        # a graceful stop / restart pending at the quit whose remaining grace is far longer than the quit's own (+ any fixed allowance): the
+        # shutdown legitimately takes the remainder plus the quit's grace, and nothing is given up on before that
+        "q_long g:15:100 50 I~n:start;y;n:gstop:15:3000", "q_long2 g:2:40 20 I,I~n:start;y;n:gtryrestart:15:2500", "q_long3 g:15:300 10 I~n:start;y;n:gstop:15:1500/I~n:start",
+        "q_long4 g:15:0 100 I~n:start;y;n:gstop:2:5000/S2000~n:start",
         "l_g g:15:100 50 I~n:start/+I~", "l_abort abort 50 I~n:start/+I~", "l_only g:15:40 10 +E500~", "l_only_abort abort 10 +I~", "l_two g:2:30 0 +S10~/+I~/F,I~n:start",
     ]
     out = list(fixed)
@@ -1338,7 +1342,7 @@ def quit_cases(seed, n):
         return f"E{r.choice([0, 5, 20, 100, 400])}" if k < 0.25 else f"S{r.choice([0, 5, 30, 100, 250])}" if k < 0.5 else "I" if k < 0.9 else "F"
     def op():
         k = r.choice(["start", "start", "start", "stop", "gstop", "restart", "grestart", "tryrestart", "gtryrestart", "signal", "towait", "delete", "deletenow", "run"])
-        g = r.choice([1, 2, 9, 15, 15]); ms = r.choice([0, 10, 50, 200, 500])
+        g = r.choice([1, 2, 9, 15, 15]); ms = r.choice([0, 10, 50, 200, 500, 500, 1500, 4000])
         if k in ("gstop", "grestart", "gtryrestart"): return f"n:{k}:{g}:{ms}"
         if k == "signal": return f"n:signal:{g}"
         if k == "run": return f"n:run:{r.randrange(50)}"
@@ -1384,7 +1388,7 @@ def c08_streams(ctx):
             # a late job is created and started by the quitting action itself: Start is queued just before the quit's controls;
             # in-action controls (`!`) are queued there too, without the task getting a turn in between
             # (an abort follows the action at once: the job task gets no turn between the in-action controls and its own abort)
-            tail = [f"a:{adv}"] + ([o for o in inact.split(";") if o] if manner != "abort" else []) + (["n:start"] if late else []) + (["y"] if late and manner == "abort" else []) + ([] if manner == "abort" else [f"n:gstop:{manner.split(':')[1]}:{manner.split(':')[2]}", "n:delete", "a:3000"])
+            tail = [f"a:{adv}"] + ([o for o in inact.split(";") if o] if manner != "abort" else []) + (["n:start"] if late else []) + (["y"] if late and manner == "abort" else []) + ([] if manner == "abort" else [f"n:gstop:{manner.split(':')[1]}:{manner.split(':')[2]}", "n:delete", "a:12000"])
             jl.append(f"{cid}.{ji} {behs} {';'.join(ops + tail)}")
     (d / "jobs.txt").write_text("\n".join(jl) + "\n")
     ok, err = core.run_driver(["job", "all"], d / "jobs.txt", d / "model.txt")
@@ -1437,6 +1441,9 @@ def c08_streams(ctx):
         # oracle: the property's own bound — abort: at once; graceful: remaining armed grace periods + the quit's own (scripts arm at most one timer per job before the quit)
         if mainres != "ok": s.oracle_failures.append((i, c, im, f"main task did not finish cleanly after the quit: {mainres}"))
         if alive: s.oracle_failures.append((i, c, im, f"processes left behind after shutdown: {alive}"))
+        # a graceful quit stops every job through its task (signal, grace, kill, reap): a process that was merely DROPPED was given up on —
+        # its task was aborted before the grace periods in effect had elapsed, and nothing kills the rest of its process group
+        if manner != "abort" and any(":dropped:" in t for t in traces): s.oracle_failures.append((i, c, im, f"graceful quit: a job's process was dropped (its task aborted) {took} ms after the quit instead of being stopped by the job: " + " // ".join(t for t in traces if ":dropped:" in t)[:300]))
         if manner == "abort" and took > 0: s.oracle_failures.append((i, c, im, f"abort quit took {took} ms of virtual time"))
         # the time bound, from the model (c08_quit_bound: a job is gone once the clock passes its deadline — the armed timer's expiry plus
         # the grace periods still queued plus the quit's own): the main task must not take longer than the slowest job's model run
